@@ -1,11 +1,14 @@
 #!/bin/bash
-# usage: tools/try_seed.sh <ID> [check ids...]  - apply seeded/<ID>/patch.diff to /repo, run the checks, undo
+# usage: tools/try_seed.sh <ID> [check ids...]  - apply seeded/<ID>/patch.diff to the repo, run the checks, undo
+# (VERIF_REPO selects another checkout of the repository; the framework used is the one this script lives in)
 set -u
 ID=$1; shift
 CHECKS=${@:-${ID%%-*}}
-cd /repo && git status --short | grep -q . && { echo "/repo not clean"; exit 2; }
-git -C /repo apply /verif/seeded/$ID/patch.diff || { echo "patch does not apply"; exit 2; }
+R=${VERIF_REPO:-/repo}
+V=$(cd "$(dirname "$0")/.." && pwd)
+cd $R && git status --short | grep -q . && { echo "$R not clean"; exit 2; }
+git -C $R apply $V/seeded/$ID/patch.diff || { echo "patch does not apply"; exit 2; }
 for c in $CHECKS; do
-  (cd /verif && ./check $c --tier quick > /verif/work/seed_$ID.$c.log 2>&1; echo "$c rc=$?"; grep -E "^VIOLATION|^KNOWN|done in" /verif/work/seed_$ID.$c.log | cut -c1-260 | head -8)
+  (cd $V && ./check $c --tier quick > $V/work/seed_$ID.$c.log 2>&1; echo "$ID $c rc=$?"; grep -E "^VIOLATION|^KNOWN|done in" $V/work/seed_$ID.$c.log | cut -c1-260 | head -8)
 done
-git -C /repo checkout -- . && /verif/bin/srcfacts -repo /repo -out /verif/coq/theories/Gen >/dev/null
+git -C $R checkout -- . && $V/bin/srcfacts -repo $R -out $V/coq/theories/Gen >/dev/null
